@@ -329,9 +329,12 @@ type CountFS struct {
 	n     int
 	armAt int
 	fired bool
-	Log   []Op
-	Keep  bool // record Log
-	calls atomic.Int64
+	// KeepCache: the crash at armAt is a crash of the PROCESS, not of the machine - everything the
+	// file system has been told so far survives (as if synced), only what comes later is lost
+	KeepCache bool
+	Log       []Op
+	Keep      bool // record Log
+	calls     atomic.Int64
 }
 
 func (c *CountFS) Arm(k int) {
@@ -367,6 +370,33 @@ func (c *CountFS) Fired() bool {
 	return c.fired
 }
 
+// syncAll makes the current content of the whole tree durable (files and directory entries).
+func syncAll(fs *vfs.MemFS, dir string) {
+	names, err := fs.List(dir)
+	if err != nil {
+		return
+	}
+	for _, n := range names {
+		p := fs.PathJoin(dir, n)
+		st, err := fs.Stat(p)
+		if err != nil {
+			continue
+		}
+		if st.IsDir() {
+			syncAll(fs, p)
+			continue
+		}
+		if f, err := fs.Open(p); err == nil {
+			_ = f.Sync()
+			_ = f.Close()
+		}
+	}
+	if d, err := fs.OpenDir(dir); err == nil {
+		_ = d.Sync()
+		_ = d.Close()
+	}
+}
+
 // Canon replaces random directory names by a placeholder.
 func Canon(p string) string {
 	parts := strings.Split(p, "/")
@@ -394,6 +424,9 @@ func (c *CountFS) op(kind, path string) {
 	c.mu.Lock()
 	if c.armAt >= 0 && c.n == c.armAt && !c.fired {
 		c.fired = true
+		if c.KeepCache {
+			syncAll(c.mem, "/")
+		}
 		c.mem.SetIgnoreSyncs(true)
 	}
 	c.n++
